@@ -70,6 +70,13 @@ func (e *Engine) callFunction(st *State, fn *ssa.Function, args []Value, bind []
 }
 
 func (e *Engine) runBlock(st *State, fr *Frame, b *ssa.BasicBlock, pred *ssa.BasicBlock) {
+	// remember that the body of a loop handled by the cut-point rule was entered on this path: a path that then
+	// reaches the end of the function left the loop from inside its body (break / return)
+	if pred != nil && b != pred {
+		if _, active := st.loopMark[fmt.Sprintf("genloop/%d/%d", fr.id, pred.Index)]; active && isLoopHeader(pred) && loopBlocks(pred)[b] {
+			st.bodyEntered = true
+		}
+	}
 	// loop bound (per frame depth + block): unwinding
 	key := fmt.Sprintf("%d/%d", fr.id, b.Index)
 	st.visits[key]++
